@@ -22,7 +22,7 @@ CHECKS = {
  "C02": ([E1, E2], "bounded-exhaustive enumeration of pipelines x action sequences x every unsubscription point x deviation-bounded scheduler run orders on the real operators under a virtual clock; plus exhaustive preemption-bounded DFS over interleavings of an emitting and an unsubscribing thread",
          "Every generated pipeline (every scheduler-using stage alone and combined with every catalogue entry, two-input shapes, flattening, share, timer sources; both forms) is driven through every action sequence up to the length bound with unsubscribe()/guard drop injected at every position, then everything still scheduled is run out in every order within the deviation bound; the probe must never grow after unsubscribe() returned. (The racing-thread half is served by engine E2 ; see coverage.engines in the evidence file.)", "5/C02"),
  "C03": ([E1], "bounded-exhaustive enumeration of operator chains x event histories on the real operators, compared step by step with a list-based reference interpreter",
-         "Every chain of catalogue operators up to the depth bound is run on every event history up to the length bound (hot subject, hot create(), cold create()/from_iter() delivery, every basic source) and the probe trace must equal the reference interpreter after every single event; nothing is sampled.", "5/C03"),
+         "Every chain of catalogue operators up to the depth bound is run on every event history up to the length bound (hot subject, hot create(), cold create()/from_iter() delivery, every basic source, the sources also observed by a subscriber that reports itself finished after 0-2 notifications) and the probe trace must equal the reference interpreter after every single event; nothing is sampled.", "5/C03"),
  "C04": ([E1, E2], "bounded-exhaustive enumeration of merged input timelines on the real two-input operators, compared step by step with per-operator reference functions; plus exhaustive preemption-bounded DFS over interleavings of two threads driving the two inputs of the _threads forms (final-state oracle)",
          "For every two-input combinator in both forms every merged timeline of the two inputs up to the length bound (terminals of either input at every position, cold synchronous inputs on either side) is executed and compared with the reference function after every event.", "5/C04"),
  "C05": ([E1, E2], "bounded-exhaustive enumeration of outer/inner event interleavings on the real flattening operators against a FIFO reference model, with a live-subscription counter and hang/panic detection; plus exhaustive preemption-bounded DFS over interleavings of the outer-delivering and an inner-completing thread on merge_all_threads",
@@ -52,7 +52,7 @@ CHECKS = {
  "C17": ([E1, E2], "bounded-exhaustive enumeration of pipelines x action histories with is_closed() sampled after every action, plus operation sequences on composite subscriptions over controllable children; plus exhaustive preemption-bounded DFS over threads appending to / unsubscribing a MultiSubscriptionThreads",
          "The C01 pipeline set (every subscription type) is driven through every action history with unsubscribe at every position and is_closed() sampled after each action: never true then false, nothing delivered after true; every sequence of append/child-finishes/retain/clone/unsubscribe on MultiSubscription(+Threads) and ZipSubscription.", "5/C17"),
  "C18": ([E1], "bounded-exhaustive differential execution of every generated pipeline in its all-local and all-thread-safe instantiation over the same action histories",
-         "The C01 pipeline set is built twice from the same AST (local types vs *_threads / *Threads types) and both instances are driven through every action history up to the length bound; traces must be identical after every action.", "5/C18"),
+         "The C01 pipeline set is built twice from the same AST (local types vs *_threads / *Threads types) and both instances are driven through every action history up to the length bound (events on every input, ticks, one unsubscribe); traces must be identical after every action.", "5/C18"),
  "C19": ([E1, E2], "bounded-exhaustive enumeration of task sets x cancellation points x run orders x clock advances on the real scheduler (LocalSpawner) behind a gate; plus exhaustive preemption-bounded DFS over interleavings of a running task body and a thread cancelling its handle",
          "Sets of 1-3 tasks of every task type with every delay are scheduled on the real LocalSpawner implementation; every sequence of cancel/resolve/tick/jump/run-in-any-order up to the length bound is executed and run counters, times, sequence numbers, cancellation and is_closed() are checked after every action.", "5/C19"),
  "C20": ([E1], "bounded-exhaustive enumeration of input scripts x key functions on the real group_by with a probe attached to every group at announcement",
